@@ -6,7 +6,7 @@
    run (catch_unwind + process-abort detection, overflow checks on and off). *)
 From Coq Require Import String.
 From Http Require Import Model.Bytes Model.Utf8 Model.Num Model.Request Model.Chunked Model.Response
-     Proofs.ReqResume Proofs.ChunkResume Proofs.RespResume Proofs.Safety.
+     Model.Checked Model.Coding Proofs.ReqResume Proofs.ChunkResume Proofs.RespResume Proofs.Safety Proofs.CheckedOk.
 
 (* `&raw_message[total_consumed..]`, `&raw_message[..needed]`: consumed never exceeds the input *)
 Theorem C06_request_consumed_within_input :
@@ -54,6 +54,100 @@ Theorem C06_slices_at_char_boundaries :
     char_boundary s i /\ char_boundary s (S i).
 Proof. exact ascii_delimiter_boundaries. Qed.
 Print Assumptions C06_slices_at_char_boundaries.
+
+(* ---- the checked model (Model/Checked.v): every slice range, str range (char boundaries
+   included), usize subtraction and addition, reserve / extend of the crate's own parsing code is
+   an explicit partial operation labelled with its source site; the control structure is the
+   source's loop over `total_consumed`.  No operation ever fails, for every input, every parser
+   state reachable under the documented protocol and every limit configuration, and the checked
+   parsers compute exactly what the pure model computes.  The one premise about the machine:
+   stored bytes plus presented bytes fit the address space (Vec lengths <= isize::MAX). ---- *)
+Theorem C06_request_parse_never_panics :
+  forall (uri : Type) (uri_parse : bytes -> option uri) cfg (st : req_state uri) raw,
+    req_reach uri uri_parse cfg st -> fits (length (r_body st)) raw ->
+    c_req_parse uri uri_parse cfg st raw = COk (req_parse uri uri_parse cfg st raw).
+Proof. exact c_req_parse_reachable. Qed.
+Print Assumptions C06_request_parse_never_panics.
+
+(* the same for any state that satisfies the invariant (a caller may also build one by hand) *)
+Theorem C06_request_parse_never_panics_inv :
+  forall (uri : Type) (uri_parse : bytes -> option uri) cfg (st : req_state uri) raw,
+    body_inv uri st -> fits (length (r_body st)) raw ->
+    c_req_parse uri uri_parse cfg st raw = COk (req_parse uri uri_parse cfg st raw).
+Proof. exact c_req_parse_ok. Qed.
+Print Assumptions C06_request_parse_never_panics_inv.
+
+Theorem C06_response_parse_never_panics :
+  forall st raw, resp_reach st -> resp_fits st raw ->
+    exists r, c_resp_parse st raw = COk r /\ roeq r (resp_parse st raw).
+Proof. exact c_resp_parse_reachable. Qed.
+Print Assumptions C06_response_parse_never_panics.
+
+Theorem C06_response_invariant_kept :
+  forall st buf st' c, resp_inv st -> resp_parse st buf = (st', Incomplete c) -> resp_inv st'.
+Proof. exact resp_inv_preserved. Qed.
+Print Assumptions C06_response_invariant_kept.
+
+Theorem C06_chunk_decode_never_panics :
+  forall st raw, cwf st ->
+    (N.of_nat (length (c_buffer st)) + N.of_nat (length raw) <= ISIZE_MAX)%N ->
+    c_chunk_decode st raw = COk (chunk_decode st raw).
+Proof. exact c_chunk_decode_ok. Qed.
+Print Assumptions C06_chunk_decode_never_panics.
+
+(* `u16::from(cmf) * 256 + u16::from(flg)` in deflate_decode stays within u16 for all bytes *)
+Theorem C06_zlib_sniff_arithmetic :
+  forall cmf flg, (cmf < 256)%N -> (flg < 256)%N ->
+    c_zlib_check_value cmf flg = COk ((cmf * 256 + flg) mod 31)%N.
+Proof. exact c_zlib_check_value_ok. Qed.
+Print Assumptions C06_zlib_sniff_arithmetic.
+
+(* the str slicing of decode_body_as_text and split_at (header values are Strings: valid UTF-8) *)
+Theorem C06_split_at_never_panics :
+  forall c s, utf8_valid s = true -> (c < 128)%N -> (N.of_nat (length s) <= ISIZE_MAX)%N ->
+    c_split_at c s = COk (split_at c s).
+Proof. exact c_split_at_ok. Qed.
+Print Assumptions C06_split_at_never_panics.
+
+Theorem C06_content_type_split_never_panics :
+  forall ct, utf8_valid ct = true -> (N.of_nat (length ct) <= ISIZE_MAX)%N ->
+    c_content_type_split ct = COk (match find_byte SEMI ct with
+                                   | Some d => (firstn d ct, skipn (S d) ct)
+                                   | None => (ct, [])
+                                   end).
+Proof. exact c_content_type_split_ok. Qed.
+Print Assumptions C06_content_type_split_never_panics.
+
+(* non-vacuity: the partial operations do fail when their condition is violated, the checked
+   parsers run on real input, and a state that breaks the invariant (body longer than the
+   declared length, which no sequence of calls produces) is exactly where the checked model panics *)
+Example C06_checked_ops_can_fail :
+  ck_subN "s" 2%N 5%N = CPanic "s" /\ ck_from "s" [1%N] 2 = CPanic "s"
+  /\ ck_str_to "s" [195%N; 169%N] 1 = CPanic "s" /\ ck_grow "s" 1 ISIZE_MAX = CPanic "s"
+  /\ c_zlib_check_value 256%N 0%N = CPanic "coding.rs:deflate_decode:u16::from(*cmf) * 256".
+Proof. vm_compute. repeat split. Qed.
+
+Example C06_checked_parsers_run :
+  let m := str "POST /a b"%string ++ CRLF in
+  let good := str "POST / HTTP/1.1"%string ++ CRLF ++ str "Content-Length: 3"%string ++ CRLF ++ CRLF ++ str "abcd"%string in
+  c_req_parse bytes (fun b => Some b) default_cfg req_init good
+    = COk (req_parse bytes (fun b => Some b) default_cfg req_init good)
+  /\ snd (req_parse bytes (fun b => Some b) default_cfg req_init good) = Complete 41
+  /\ c_resp_parse resp_init (str "HTTP/1.1 200 OK"%string ++ CRLF ++ str "Transfer-Encoding: chunked"%string
+                             ++ CRLF ++ CRLF ++ str "3;x"%string ++ CRLF ++ str "abc"%string ++ CRLF ++ str "0"%string ++ CRLF ++ CRLF)
+    = COk (resp_parse resp_init (str "HTTP/1.1 200 OK"%string ++ CRLF ++ str "Transfer-Encoding: chunked"%string
+                             ++ CRLF ++ CRLF ++ str "3;x"%string ++ CRLF ++ str "abc"%string ++ CRLF ++ str "0"%string ++ CRLF ++ CRLF)).
+Proof. vm_compute. repeat split. Qed.
+
+(* a state no sequence of calls produces (body longer than the declared length): the checked
+   model shows where the source would panic, so the invariant premise is not idle *)
+Example C06_invariant_is_needed :
+  c_req_parse bytes (fun b => Some b) default_cfg
+    {| r_phase := PBody 1; r_method := []; r_target := None; r_headers := []; r_body := [1%N; 2%N]; r_total := 0%N |}
+    [3%N]
+  = CPanic "request.rs:parse_message_for_body:content_length - self.body.len()".
+Proof. vm_compute. reflexivity. Qed.
+
 
 (* the numeric extremes of the quantifier text, on the model: rejected or waiting, never stuck *)
 Example C06_extremes :
